@@ -104,6 +104,8 @@ def paired(rep, thorough):
         rep.add_eval(("pairs", seed), nontrivial=True)
     rep.monitor["C20_paired_runs"] = {"hydraulic_setups": n, "with_mixed_arc_classes": mixed, "comparisons": compared, "violations": viol}
     float_pairs(rep, thorough)
+    import corr_tarea
+    corr_tarea.monitor_c20(rep, 1500 if thorough else 200)
     return {}
 
 
@@ -150,4 +152,6 @@ if __name__ == "__main__":
     sys.exit(net_check.run("C20", RULE,
                            ["exact-rational semantics stands for float semantics up to rounding",
                             "hydraulic parameters and hydrological forcing identical between the paired configurations"],
-                           n_quick=10, n_thorough=50, extra=paired))
+                           n_quick=10, n_thorough=50, extra=paired,
+                           # the models the erasure theorems of coq/QTankErasure.v and coq/NodeErasure.v are about, tied to the code
+                           corr=[("qtank", 120, 1000, 8), ("altarc", 100, 800, 8), ("tarea", 120, 800, 8)]))
